@@ -100,4 +100,16 @@ Section NPNum.
   (* (y - yhat[:, np.newaxis]): entry (i, j) = y_j - yhat_i *)
   Definition nn_row_minus_col (y yhat : vec) : mat :=
     nn_tab (length yhat) (length y) (fun i j => osub O (nth j y (o0 O)) (nth i yhat (o0 O))).
+  (* integer label arrays: (labels == c), (labels != c), labels.max(), range(n) *)
+  Definition nn_eq_zs (l : list Z) (c : Z) : list bool := map (fun a => Z.eqb a c) l.
+  Definition nn_ne_zs (l : list Z) (c : Z) : list bool := map (fun a => negb (Z.eqb a c)) l.
+  Definition nn_max_z (l : list Z) : Z := fold_right Z.max (hd 0%Z l) l.
+  Definition nn_zrange (n : Z) : list Z := map Z.of_nat (seq 0 (Z.to_nat n)).
+  (* A.mean(axis=0) and the in-place A[mask] -= v (v broadcast over the selected rows) *)
+  Definition nn_mean_rows (A : mat) : vec := colmeans A.
+  Fixpoint nn_isub_rows_where (mask : list bool) (A : mat) (v : vec) : mat :=
+    match mask, A with
+    | b :: mk, r :: A' => (if b then vsub r v else r) :: nn_isub_rows_where mk A' v
+    | _, _ => A
+    end.
 End NPNum.
